@@ -27,7 +27,7 @@ ASSUMPTIONS = [
 ]
 
 KINDS = ["tanh", "cube", "lin", "bilin", "twoout", "sum", "einsum_mul", "math_a", "math_b", "concat", "fill2",
-         "filterconv", "tanh", "lin", "bilin", "sumlin", "sumlin", "sum3"]
+         "filterconv", "tanh", "lin", "bilin", "sumlin", "sumlin", "sum3", "cplx"]
 
 
 def budget(tier):
@@ -333,6 +333,38 @@ def _check_case(case):
             o2 = new_sig(tag + "b", t, (1 - t ** 2)[:, None] * (Q @ J0))
             modules.append(M["twoout"](r0, [o1, o2], P, Q))
             labels.append("two_outputs")
+        elif kind == "cplx":
+            # a complex intermediate signal z = x1 + i x2 (MakeComplex) consumed through a slice by RealPart / ImagPart /
+            # ComplexNorm: the slice allocates the sensitivity of the complex signal
+            if slc0 is not None:
+                r1, v1, J1, g1 = take_abs(idx0, slc0)
+            else:
+                cand = [i for i, s in enumerate(sigs) if s.val.size == n0 and not s.twoD]
+                r1, v1, J1, g1 = take(cand[nd["in"][1] % len(cand)], None)
+            z = pym.Signal(f"z{inode}")
+            modules.append(pym.MakeComplex([r0, r1], z))
+            a = (nd["in"][1] % n0)
+            ln = 1 + (nd["m"] % max(1, n0 - a))
+            if nd["in"][0] % 3 == 0 and n0 >= 2:
+                rows = np.array(sorted({a, (a + ln) % n0}))      # integer-array slice (no repeats)
+                zs = z[rows]
+            else:
+                rows = np.arange(a, min(a + ln, n0))
+                zs = z[int(rows[0]):int(rows[-1]) + 1]
+            which = nd["m"] % 3
+            if which == 0:
+                modules.append(pym.RealPart(zs, new_sig(tag, v0[rows], J0[rows])))
+            elif which == 1:
+                modules.append(pym.ImagPart(zs, new_sig(tag, v1[rows], J1[rows])))
+            else:
+                rr = np.sqrt(v0[rows] ** 2 + v1[rows] ** 2)
+                if np.any(rr < 1e-3):
+                    modules.append(pym.RealPart(zs, new_sig(tag, v0[rows], J0[rows])))
+                else:
+                    modules.append(pym.ComplexNorm(zs, new_sig(tag, rr, (v0[rows, None] * J0[rows] + v1[rows, None] * J1[rows])
+                                                               / rr[:, None])))
+            labels.append("complex_signal_through_slice")
+            labels.append("slice")
         elif kind == "sum3":
             # the same signal on inputs 1 and 2, a different one of the same length (if there is one) on input 3
             cand = [i for i, s in enumerate(sigs) if s.val.size == n0 and s is not g0 and not s.twoD]
